@@ -229,9 +229,20 @@ impl ToTokens for Expansion<'_> {
                 Specialized,
             }
 
+            /// Strips the invisible groups (a `$t:ty` macro fragment) and parentheses off a type.
+            fn peel(mut ty: &syn::Type) -> &syn::Type {
+                loop {
+                    match ty {
+                        syn::Type::Group(g) => ty = &g.elem,
+                        syn::Type::Paren(p) => ty = &p.elem,
+                        _ => return ty,
+                    }
+                }
+            }
+
             let impl_kind = if is_blanket {
                 ImplKind::Forwarded
-            } else if field_ty == return_ty.as_ref() {
+            } else if peel(field_ty) == peel(return_ty.as_ref()) {
                 ImplKind::Direct
             } else if field_contains_generics || generics_search.any_in(&return_ty) {
                 ImplKind::Forwarded
